@@ -60,6 +60,16 @@ struct Run {
     dirty: Vec<u32>,
     api_panics: u64,
     api_panic_sample: Option<String>,
+    /// The database over the run's small zoneinfo directory, and which zone
+    /// instance its cache currently holds for each name.
+    db: Option<jiff::tz::TimeZoneDatabase>,
+    db_dir: std::path::PathBuf,
+    db_cached: HashMap<u8, u32>,
+    /// (block address, allocation serial) -> zone instance, for zones that
+    /// came out of the database.
+    db_blocks: HashMap<(usize, u64), u32>,
+    db_mtime: u64,
+    db_gets: u64,
 }
 
 // Every simulated thread is a real OS thread (so that thread-local state
@@ -467,6 +477,113 @@ impl Env for NativeEnv {
         });
     }
 
+    fn db_get(&mut self, name: u8, case: u8) -> Option<(TimeZone, u32)> {
+        let name = name % DB_NAMES.len() as u8;
+        let db = with_run(|r| r.db.clone())?;
+        let canonical = DB_NAMES[name as usize];
+        let q = match case % 4 {
+            0 => canonical.to_string(),
+            1 => canonical.to_ascii_lowercase(),
+            2 => canonical.to_ascii_uppercase(),
+            _ => canonical
+                .chars()
+                .enumerate()
+                .map(|(i, c)| if i % 2 == 0 { c.to_ascii_uppercase() } else { c.to_ascii_lowercase() })
+                .collect(),
+        };
+        let tz = match db.get(&q) {
+            Ok(tz) => tz,
+            Err(e) => {
+                violate("answer", format!("database lookup of {q:?} failed: {e}"));
+                return None;
+            }
+        };
+        drop(db);
+        with_run(|r| r.db_gets += 1);
+        assert_eq!(std::mem::size_of::<TimeZone>(), std::mem::size_of::<usize>());
+        let bits: usize = unsafe { std::mem::transmute_copy(&tz) };
+        if bits & 7 != 4 {
+            violate("answer", format!("database lookup of {q:?} did not return a heap TZif zone"));
+            std::mem::forget(tz);
+            return None;
+        }
+        // The reference-counted block the handle points into.
+        let addr = (bits & !7usize).wrapping_sub(16);
+        let Some((_, serial)) = alloc::live_at(addr) else {
+            violate(
+                "use_after_free",
+                format!("database lookup of {q:?} returned a handle into memory that is not allocated"),
+            );
+            std::mem::forget(tz);
+            return None;
+        };
+        let known = with_run(|r| r.db_blocks.get(&(addr, serial)).copied());
+        let zone = match known {
+            Some(z) => z,
+            None => {
+                // A new instance: the cache holds one handle of it.
+                let z = with_run(|r| {
+                    r.zones.push(ZoneModel {
+                        spec: Spec::Db(name),
+                        handles: 1,
+                        footprint: 1,
+                        reference: false,
+                    });
+                    (r.zones.len() - 1) as u32
+                });
+                alloc::watch_addr(z, addr);
+                with_run(|r| {
+                    r.db_blocks.insert((addr, serial), z);
+                    *r.kind_counts.entry("from_database").or_default() += 1;
+                });
+                z
+            }
+        };
+        // If the cache now holds another instance for this name than before,
+        // it dropped its handle of the old one.
+        let old = with_run(|r| r.db_cached.insert(name, zone));
+        if let Some(old) = old {
+            if old != zone {
+                self.handles(old, -1);
+            }
+        }
+        Some((tz, zone))
+    }
+
+    fn db_reset(&mut self) {
+        let Some(db) = with_run(|r| r.db.clone()) else { return };
+        db.reset();
+        drop(db);
+        let cached = with_run(|r| std::mem::take(&mut r.db_cached));
+        for (_, z) in cached {
+            self.handles(z, -1);
+        }
+    }
+
+    fn db_advance(&mut self, step: u8) {
+        if with_run(|r| r.db.is_none()) {
+            return;
+        }
+        const TTL: u64 = 300 * 1_000_000_000;
+        sim::advance_clock(match step % 4 {
+            0 => TTL + 1,
+            1 => TTL,
+            2 => 1,
+            _ => TTL / 2 + 1,
+        });
+    }
+
+    fn db_touch(&mut self, name: u8) {
+        let name = name as usize % DB_NAMES.len();
+        let (dir, n) = with_run(|r| {
+            r.db_mtime += 1;
+            (r.db_dir.clone(), r.db_mtime)
+        });
+        if with_run(|r| r.db.is_some()) {
+            set_mtime(&dir.join(DB_NAMES[name]), n);
+        }
+    }
+
     fn no_alloc_begin(&mut self) {
         let a = alloc::my_allocs();
         with_run(|r| r.no_alloc_mark = a);
@@ -609,7 +726,41 @@ struct SchedOutcome {
     switches: u64,
 }
 
-fn run_case(case: Arc<Case>, sched: &SchedSpec, want_log: bool) -> SchedOutcome {
+fn uses_db(case: &Case) -> bool {
+    case.threads
+        .iter()
+        .flatten()
+        .any(|op| matches!(op, Op::DbGet { .. } | Op::DbReset | Op::DbTouch { .. }))
+}
+
+fn set_mtime(path: &std::path::Path, n: u64) {
+    let t = std::time::SystemTime::UNIX_EPOCH
+        + std::time::Duration::new(1_650_000_000 + (n * 7919) % 100_003, n as u32);
+    if let Ok(f) = std::fs::OpenOptions::new().write(true).open(path) {
+        let _ = f.set_modified(t);
+    }
+}
+
+/// Creates the small zoneinfo directory and opens the database over it.
+fn db_setup(dir: &std::path::Path) -> Result<jiff::tz::TimeZoneDatabase, String> {
+    let _ = std::fs::remove_dir_all(dir);
+    for (i, name) in DB_NAMES.iter().enumerate() {
+        let p = dir.join(name);
+        if let Some(parent) = p.parent() {
+            std::fs::create_dir_all(parent).map_err(|e| e.to_string())?;
+        }
+        std::fs::write(&p, interp::db_zone_bytes(i)).map_err(|e| e.to_string())?;
+        set_mtime(&p, i as u64 + 1);
+    }
+    jiff::tz::TimeZoneDatabase::from_dir(dir).map_err(|e| e.to_string())
+}
+
+fn run_case(
+    case: Arc<Case>,
+    sched: &SchedSpec,
+    want_log: bool,
+    db_dir: std::path::PathBuf,
+) -> SchedOutcome {
     alloc::reset_watches();
     {
         let mut g = RUN.lock().unwrap_or_else(|e| e.into_inner());
@@ -643,7 +794,30 @@ fn run_case(case: Arc<Case>, sched: &SchedSpec, want_log: bool) -> SchedOutcome 
             dirty: vec![],
             api_panics: 0,
             api_panic_sample: None,
+            db: None,
+            db_dir: db_dir.clone(),
+            db_cached: HashMap::new(),
+            db_blocks: HashMap::new(),
+            db_mtime: 0,
+            db_gets: 0,
         });
+    }
+    if uses_db(&case) {
+        // The simulated monotonic clock (jiff's TTLs) starts at zero; the
+        // scheduling hooks inside the database code are no-ops here because
+        // only the baton holder runs.
+        sim::init_once();
+        sim::with_rt(|rt| {
+            rt.reset(Policy::Random { stick: 0 }, 0, vec![]);
+            rt.max_steps = u64::MAX;
+        });
+        match db_setup(&db_dir) {
+            Ok(db) => with_run(|r| {
+                r.db = Some(db);
+                r.db_mtime = 10;
+            }),
+            Err(e) => violate("harness_model", format!("database setup: {e}")),
+        }
     }
     let baton = Arc::new(Baton::new(case.threads.len(), sched));
     let mut joins = vec![];
@@ -676,6 +850,8 @@ fn run_case(case: Arc<Case>, sched: &SchedSpec, want_log: bool) -> SchedOutcome 
     });
     if aborting() {
         std::mem::forget((chans, shared, refs));
+        std::mem::forget(with_run(|r| r.db.take()));
+        sim::with_rt(|rt| rt.active = false);
         return sched_out;
     }
     let mut env = NativeEnv;
@@ -701,6 +877,16 @@ fn run_case(case: Arc<Case>, sched: &SchedSpec, want_log: bool) -> SchedOutcome 
             std::mem::forget(it);
             return sched_out;
         }
+    }
+    // The database goes last: its cache releases the handles it still holds.
+    let (db, cached) = with_run(|r| (r.db.take(), std::mem::take(&mut r.db_cached)));
+    if let Some(db) = db {
+        drop(db);
+        for (_, z) in cached {
+            env.handles(z, -1);
+        }
+        sim::with_rt(|rt| rt.active = false);
+        let _ = std::fs::remove_dir_all(&db_dir);
     }
     check_memory_full("end of run");
     // End of run: nothing may be left.
@@ -825,7 +1011,7 @@ impl Prop for C20 {
             alloc::enable();
         });
         sim::install_panic_hook();
-        let out = run_case(case.clone(), sched, want_trace);
+        let out = run_case(case.clone(), sched, want_trace, _ctx.dir.join("c20db"));
         let run = RUN.lock().unwrap_or_else(|e| e.into_inner()).take();
         let mut harness_error: Option<String> = None;
         let Some(run) = run else {
@@ -864,6 +1050,7 @@ impl Prop for C20 {
             stats.add("oracle.answers_checked_against_documented_constants", run.answers_specified);
             stats.add("oracle.answers_checked_against_golden_table", run.answers_golden);
             stats.add("oracle.eq_checked", run.eq_checked);
+            stats.add("database.lookups", run.db_gets);
             stats.add("ignored.zoned_arithmetic_api_panics", run.api_panics);
             stats.add("oracle.memory_model_checks", run.mem_checks);
             stats.add("zones.instances", run.zones.len() as u64);
@@ -950,7 +1137,7 @@ fn op_key(k: &str) -> &'static str {
     m!(
         "new", "clone", "drop", "move", "eq", "query", "into_zoned", "zoned_add",
         "zoned_with_tz", "extract_tz", "to_ambiguous", "resolve", "send", "recv",
-        "swap_shared", "crash", "zoned_make", "zoned_mutate", "zoned_compare", "zoned_pair",
+        "swap_shared", "crash", "db_get", "db_reset", "db_advance", "db_touch", "zoned_make", "zoned_mutate", "zoned_compare", "zoned_pair",
         "zoned_sweep", "zoned_span_rel", "tz_make", "amb_op"
     )
 }
@@ -959,5 +1146,5 @@ fn kind_key(k: &str) -> &'static str {
     macro_rules! m {
         ($($n:literal),*) => { match k { $($n => concat!("zones.created.", $n),)* _ => "zones.created.other" } };
     }
-    m!("utc", "unknown", "fixed", "posix", "tzif_real", "tzif_synth", "tzif_named", "tzif_bundled", "static")
+    m!("utc", "unknown", "fixed", "posix", "tzif_real", "tzif_synth", "tzif_named", "tzif_bundled", "from_database", "static")
 }
